@@ -34,6 +34,8 @@ def check(repo, col, tier):
     from . import c06
     col.rule("R-C07-padding", "over-long checkpoint layouts extend the inputs after the samples", 1)
     c06.checkpoint_padding(repo, col, "R-C07-padding")
+    col.rule("R-C07-scan", "the checkpointed (nested) scan threads the carry through every block", 6)
+    c06._scan(repo, col, "R-C07-scan")
 
 
 def _alts(t: T):
@@ -149,31 +151,48 @@ def _single(repo, col, fi, ex):
     tg = [unparse(x) for x in ic.targets[0].elts] if isinstance(ic.targets[0], ast.Tuple) else []
     col.check(tg == ["all_states", "all_params"], R, fi, "init_fn's results bound as (all_states, all_params)", str(tg),
               f"bound to {tg}", node=ic)
-    body = ex.nested.get("_body_fun")
+    from . import c08
+    body = c08.scan_body(repo, fi, ex)
     if body is None:
-        raise AnalysisError("_body_fun vanished")
+        raise AnalysisError("the scan body handed to nested_checkpoint_scan was not found")
     sc2 = next((c for c in body.calls if isinstance(c.func, ast.Name) and c.func.id == "step_fn"), None)
     if sc2 is None:
-        raise AnalysisError("_body_fun no longer calls step_fn")
-    a = [unparse(x) for x in sc2.args]
-    col.check(a == ["state", "all_params", "externals", "external_inds", "delta_t"], R, body.fi,
-              "scan body: step_fn(state, all_params, externals, external_inds, delta_t)", str(a),
-              f"step_fn is called with {a}", node=sc2)
+        raise AnalysisError("the scan body no longer calls step_fn")
+    bp = body.fi.params
+    at = [body.term(x) for x in sc2.args]
+    roles = []
+    if len(at) == 5 and len(bp) >= 2:
+        roles = [at[0].op == "param" and at[0].name == bp[0],                                       # the carry
+                 T.find(at[1], lambda x: x.op == "item" and x.name == 1) is not None and
+                 T.find(at[1], lambda x: x.op == "localfn" or (x.op == "item" and x.name == 0 and x.args[0].op == "call"
+                                                               and x.args[0].name == "build_init_and_step_fn")) is not None,  # all_params of init_fn
+                 at[2].op == "param" and at[2].name == bp[1],                                       # the per-step inputs
+                 T.find(at[3], lambda x: x.op == "param" and x.name == "external_inds") is not None or
+                 T.find(at[3], lambda x: x.op == "attr" and x.name == "external_inds") is not None,
+                 at[4].op == "param" and at[4].name == "delta_t"]
+    col.check(bool(roles) and all(roles), R, body.fi,
+              "scan body: step_fn(carry, all_params, inputs of this step, external_inds, delta_t)", str([a.short(30) for a in at]),
+              f"step_fn is called with {[unparse(x) for x in sc2.args]} (roles recognised: {roles}): the scan must step with the carry, the "
+              f"parameters returned by init_fn, the inputs of this step, the input rows and the requested delta_t", node=sc2)
     rb = body.returns[0] if body.returns else None
-    ok = rb is not None and rb.op == "tuple" and rb.args[0].op == "callv" and T.find(rb.args[1], lambda x: x.key() == rb.args[0].key()) is not None
+    ok = rb is not None and rb.op == "tuple" and rb.args[0].op == "callv" and \
+        T.find(idx.inline(repo, body.fi, rb.args[1]), lambda x: x.key() == rb.args[0].key()) is not None
     col.check(ok, R, body.fi, "scan body returns the stepped state and records from it", "(state, recs(state))",
               f"returns {rb.short(120) if rb else None}", node=body.fi.node)
     # scan is seeded with the states that the initial recording was taken from, and its carry is returned
     call = next((c for c in ex.calls if isinstance(c.func, ast.Name) and c.func.id == "nested_checkpoint_scan"), None)
     t = ex.term(call)
     seed = t.args[1] if len(t.args) > 1 else None
-    initrec = next((n for n in walk_no_nested(fi.node) if isinstance(n, ast.Assign) and isinstance(n.targets[0], ast.Name)
-                    and n.targets[0].id == "init_recs"), None)
     src = None
-    if initrec is not None:
-        for x in ast.walk(initrec.value):
-            if isinstance(x, ast.Subscript) and isinstance(x.value, ast.Subscript) and isinstance(x.value.value, ast.Name):
-                src = ex.term(x.value.value)
+    for n in walk_no_nested(fi.node):
+        if isinstance(n, ast.Assign) and isinstance(n.targets[0], ast.Name) and n.targets[0].id == "recs" and "concatenate" in unparse(n.value):
+            tt = ex.term(n.value)
+            cat = T.find(tt, lambda x: x.op == "mcall" and x.name == "concatenate")
+            if cat is not None and len(cat.args) > 1 and cat.args[1].op in ("list", "tuple") and cat.args[1].args:
+                first = idx.inline(repo, fi, cat.args[1].args[0])
+                g = T.find(first, lambda x: x.op == "sub" and x.args[0].op == "sub" and x.args[1].op in ("elem", "item"))
+                if g is not None:
+                    src = g.args[0].args[0]
     col.check(seed is not None and src is not None and seed.key() == src.key(), R, fi,
               "initial recording is taken from the state that seeds the scan", "same all_states",
               f"scan is seeded with {seed.short(60) if seed else None}, initial recording reads {src.short(60) if src else None}", node=call)
